@@ -47,7 +47,10 @@ CFG = {
     "C02": dict(files=["Properties/C02.lean"], oracles=("C02",), classify=classify_c02,
                 knobs=[(3, Knobs(p_wh=0.8, p_shift=0.3, p_leave=0.6, p_gvac=0.4, p_tz=0.5, p_dst=0.3, dur_weeks=[1, 2, 2, 3])),
                        (1, Knobs(envelope="alap", p_wh=0.8, p_leave=0.6, p_tz=0.5, p_dst=0.3)),
-                       (1, Knobs(aligned_only=False, p_wh=0.9, p_leave=0.5, p_tz=0.3, forward_only=True, envelope="asap"))],
+                       # calendars declared on a resource group (hours, shift, zone, leave) and inherited by its members
+                       (2, Knobs(envelope="asap", p_group=0.9, p_group_cal=0.9, max_res=3, p_wh=0.3, p_shift=0.4, p_leave=0.8, p_tz=0.3,
+                                 big_effort=0.4, dur_weeks=[2, 3])),
+                       (2, Knobs(aligned_only=False, p_wh=0.9, p_leave=0.8, p_tz=0.3, forward_only=True, envelope="asap", big_effort=0.4))],
                 nontrivial=any_booking,
                 rule="random projects with own hours / shifts (several intervals, cross-midnight, 24:00), zones incl. DST weeks and "
                      ":30/:45 offsets (tables from zdump), leaves/vacations/bookings/global holidays; one stream with calendars NOT aligned "
